@@ -54,7 +54,7 @@ class FileSystemLoader(BaseLoader):
         if self.ext and not template_path.suffix:
             template_path = template_path.with_suffix(self.ext)
 
-        if os.path.pardir in template_path.parts:
+        if template_path.is_absolute() or os.path.pardir in template_path.parts:
             raise TemplateNotFoundError(template_name)
 
         for path in self.search_path:
